@@ -37,7 +37,8 @@ CONSTANTS
     Mags, Exps,         \* request magnitudes (besides the advertised bounds themselves), exponents
     SCd, Tol            \* fixed-point digits and tolerance (in fixed-point units)
 
-VARIABLES inp,          \* [groups, power, exp, work]  (work[g][k]: battery k of group g is reported working)
+VARIABLES inp,          \* [groups, power, exp, work]  (work[g][k]: status of battery k of group g:
+                        \*  "w" working, "u" uncertain (blocked after a failed request), "n" not working)
           pc,           \* control state
           w             \* working record of the algorithm (intermediate values)
 
@@ -139,7 +140,7 @@ InAdvertised(hp, a) == (2 * a.il <= hp /\ hp <= 2 * a.el) \/ (2 * a.eu <= hp /\ 
 \* SystemBounds.__contains__ (closed exclusion interval)
 SysContains(hp, a) == 2 * a.il <= hp /\ hp <= 2 * a.iu /\ ~(2 * a.el <= hp /\ hp <= 2 * a.eu)
 
-\* Working batteries.  Both PowerBoundsCalculator.calculate and BatteryManager._get_components_data
+\* Battery status.  Both PowerBoundsCalculator.calculate and BatteryManager._get_components_data
 \* take the WHOLE set of batteries behind a shared inverter as soon as one of them is working (the
 \* data of all of them is complete), and leave out a set none of whose batteries works.
 RECURSIVE EffFrom(_, _, _)
@@ -147,13 +148,25 @@ EffFrom(groups, work, k) ==
     IF k > Len(groups) THEN <<>>
     ELSE (IF \E b \in 1..Len(work[k]) : work[k][b] THEN <<groups[k]>> ELSE <<>>) \o EffFrom(groups, work, k + 1)
 Effective(groups, work) == EffFrom(groups, work, 1)
-AllWork(groups) == [k \in 1..Len(groups) |-> [b \in 1..Len(groups[k].bats) |-> TRUE]]
-\* every non-empty set of working batteries
-WorkSets(groups) ==
+AllWork(groups) == [k \in 1..Len(groups) |-> [b \in 1..Len(groups[k].bats) |-> "w"]]
+\* ComponentPoolStatus.get_working_components over ALL batteries of the pool / of the request (what the
+\* battery pool and the manager both ask once): the working ones, or -- when none is working -- the
+\* uncertain ones.  Result: boolean matrix "battery is used".
+WorkingOf(st) ==
+    LET anyw == \E k \in 1..Len(st) : \E b \in 1..Len(st[k]) : st[k][b] = "w"
+    IN [k \in 1..Len(st) |-> [b \in 1..Len(st[k]) |-> st[k][b] = (IF anyw THEN "w" ELSE "u")]]
+\* status assignments: a non-empty set S of batteries is working and the others are not working, or
+\* S is working and the others uncertain (uncertain ones must be ignored), or S is uncertain and
+\* nothing is working (the fallback)
+StatusSets(groups) ==
     LET all == UNION {{<<k, b>> : b \in 1..Len(groups[k].bats)} : k \in 1..Len(groups)}
-    IN {[k \in 1..Len(groups) |-> [b \in 1..Len(groups[k].bats) |-> <<k, b>> \in S]] : S \in (SUBSET all) \ {{}}}
+        mk(S, in, out) == [k \in 1..Len(groups) |-> [b \in 1..Len(groups[k].bats) |-> IF <<k, b>> \in S THEN in ELSE out]]
+    IN {mk(S, "w", "n") : S \in (SUBSET all) \ {{}}} \cup
+       {mk(S, "w", "u") : S \in (SUBSET all) \ {{}, all}} \cup
+       {mk(S, "u", "n") : S \in (SUBSET all) \ {{}}}
 PartiallyWorking(work) ==
     \E k \in 1..Len(work) : (\E b \in 1..Len(work[k]) : work[k][b]) /\ (\E b \in 1..Len(work[k]) : ~work[k][b])
+EffectiveSt(groups, st) == Effective(groups, WorkingOf(st))
 
 SumMinPower(groups, supply) == SumS([i \in 1..Len(groups) |-> MinPowerOf(Side(groups[i], supply))])
 
@@ -436,9 +449,9 @@ Install ==
     /\ \E n \in NGroups : \E rest \in [2..n -> GroupSetR] :
          LET gs == [k \in 1..n |-> IF k = 1 THEN inp.groups[1] ELSE rest[k]] IN
          IF Mode = "bounds"
-         THEN \E wk \in WorkSets(gs) :
-                  /\ inp' = [inp EXCEPT !.groups = gs, !.work = wk]
-                  /\ Emit([g |-> gs, wk |-> wk, hp |-> Probes(Effective(gs, wk))])
+         THEN \E st \in StatusSets(gs) :
+                  /\ inp' = [inp EXCEPT !.groups = gs, !.work = st]
+                  /\ Emit([g |-> gs, bs |-> st, hp |-> Probes(EffectiveSt(gs, st))])
          ELSE IF Mode = "reject"
          THEN \E p \in NonAdmitted(gs) : /\ inp' = [inp EXCEPT !.groups = gs, !.power = p, !.work = AllWork(gs)]
                                          /\ Emit([g |-> gs, p |-> p, e |-> inp.exp])
@@ -477,9 +490,9 @@ GroupInBoundsInv == ClauseInv("GroupInBounds")
 NoHeadroomZeroInv == ClauseInv("NoHeadroomZero")
 (* C17 *)
 \* (on the battery sets that take part: those with at least one working battery)
-AdvertisedAcceptedInv == pc = "installed" => AdvertisedAcceptedOn(Effective(inp.groups, inp.work))
-AtLeastSumMinPowerInv == pc = "installed" => AtLeastSumMinPowerOn(Effective(inp.groups, inp.work))
-InclusionIdenticalInv == pc = "installed" => InclusionIdenticalOn(Effective(inp.groups, inp.work))
+AdvertisedAcceptedInv == pc = "installed" => AdvertisedAcceptedOn(EffectiveSt(inp.groups, inp.work))
+AtLeastSumMinPowerInv == pc = "installed" => AtLeastSumMinPowerOn(EffectiveSt(inp.groups, inp.work))
+InclusionIdenticalInv == pc = "installed" => InclusionIdenticalOn(EffectiveSt(inp.groups, inp.work))
 \* every admitted request of the distribution scope is one the enforced check lets through
 \* (with adjust_power; without it unless it exceeds the inclusion bounds)
 AdmittedIsAcceptedInv ==
